@@ -1451,6 +1451,23 @@ bail:
 	return 0;
 }
 
+/**
+ * Check if at the specified position there is at least one block with a valid parity.
+ */
+static int parity_is_required(struct snapraid_state* state, block_off_t pos)
+{
+	tommy_node* i;
+
+	for (i = state->disklist; i != 0; i = i->next) {
+		struct snapraid_disk* disk = i->data;
+
+		if (block_has_file_and_valid_parity(fs_par2block_find(disk, pos)))
+			return 1;
+	}
+
+	return 0;
+}
+
 int state_sync(struct snapraid_state* state, block_off_t blockstart, block_off_t blockcount)
 {
 	block_off_t blockmax;
@@ -1502,6 +1519,20 @@ int state_sync(struct snapraid_state* state, block_off_t blockstart, block_off_t
 		/* number of block in the parity file */
 		parity_size(&parity_handle[l], &out_size);
 		parityblocks = out_size / state->block_size;
+
+		/* the size is the expected one, and not the real one of the files, */
+		/* then check that the blocks with a valid parity are really stored, */
+		/* to detect parity files truncated, or recreated empty because not mounted */
+		if (parityblocks >= used_paritymax) {
+			block_off_t i;
+
+			for (i = 0; i < used_paritymax; ++i) {
+				if (parity_is_required(state, i) && !parity_is_stored(&parity_handle[l], i, state->block_size)) {
+					parityblocks = i;
+					break;
+				}
+			}
+		}
 
 		/* if the file is too small */
 		if (parityblocks < used_paritymax) {
